@@ -352,7 +352,9 @@ func ValidateLogMultiConfig(cfg *configpb.LogMultiConfig) (LogBackendMap, error)
 		if _, ok := backendMap[logCfg.LogBackendName]; !ok {
 			return nil, fmt.Errorf("log config: references undefined backend: %s: %v", logCfg.LogBackendName, logCfg)
 		}
-		logIDKey := fmt.Sprintf("%s-%d", logCfg.LogBackendName, logCfg.LogId)
+		// The tree ID goes first: its digits end at the separator, so distinct
+		// (backend, tree ID) pairs never share a key, whatever the backend is named.
+		logIDKey := fmt.Sprintf("%d-%s", logCfg.LogId, logCfg.LogBackendName)
 		if ok := logIDMap[logIDKey]; ok {
 			return nil, fmt.Errorf("log config: dup tree id: %d for: %v", logCfg.LogId, logCfg)
 		}
